@@ -96,7 +96,10 @@ StepSites(it, o, nout, lx) ==
         runs == DigitRuns(seg, Len(o))
     IN IF Len(nout) <= Len(o) THEN <<>>
        ELSE IF it.w = "tok" THEN
-            (IF IntLike(it.b) THEN <<MkSite("dec", Len(nout) - Len(it.b) + 1, Len(nout), lx.name, lx.idx + 1)>> ELSE <<>>)
+            (IF IntLike(it.b) THEN <<MkSite("dec", Len(nout) - Len(it.b) + 1, Len(nout), lx.name, lx.idx + 1)>>
+             ELSE IF Len(it.b) >= 2 /\ it.b[1] = 60 /\ it.b[2] # 60 /\ it.b[Len(it.b)] = 62          \* a hexadecimal string: its digits
+                  THEN <<MkSite("hex", Len(nout) - Len(it.b) + 2, Len(nout) - 1, lx.name, 0)>>
+             ELSE <<>>)
        ELSE IF it.w = "objhdr" THEN
             (IF runs = <<>> THEN <<>> ELSE LET r == runs[Len(runs)] IN <<MkSite("dec", r[1], r[2], NmObjNum, 1)>>)
        ELSE IF it.w = "xreftable" THEN
@@ -216,12 +219,22 @@ MinOf(S) == CHOOSE x \in S : \A y \in S : x <= y
 
 Rep(unit, n) == Concat([i \in 1..n |-> unit])
 
-SomePositions(n) ==      \* a few positions in 1..n: the ends, random ones, a site edge
-    {1, n, RandomElement(1..n), RandomElement(1..n), RandomElement(1..n)}
+\* The simulator picks one successor: parameters are drawn with RandomElement (bound through a singleton quantifier,
+\* a LET definition would be re-evaluated at every use) instead of enumerating thousands of successors per step.
+SomePositions(n) ==      \* a few positions in 1..n: a random one, now and then an end, a site edge
+    {RandomElement(1..n), RandomElement({1, n, RandomElement(1..n)})}
     \cup (IF sites = <<>> THEN {} ELSE UNION {{sites[i].s, IF sites[i].e < n THEN sites[i].e + 1 ELSE n} : i \in {RandomElement(1..Len(sites))}})
 
 SiteIdx(form) == {i \in 1..Len(sites) : sites[i].form = form}
 SiteNames(form) == {sites[i].name : i \in SiteIdx(form)}
+\* the names under which the file structure and the decoders read numbers (the other sites are numbers of the content)
+Structural == { NameLength, NameSize, NameW, NameIndex, NamePrev, NameN, NameFirst, NameXRefStm, NmObjNum, NmObjHdr, NmXrefOff, NmXrefGen,
+                NmXrefHdr, NmStartx, NameRoot,
+                <<67, 111, 108, 117, 109, 110, 115>>, <<67, 111, 108, 111, 114, 115>>, <<80, 114, 101, 100, 105, 99, 116, 111, 114>>,
+                <<66, 105, 116, 115, 80, 101, 114, 67, 111, 109, 112, 111, 110, 101, 110, 116>>,          \* Columns Colors Predictor BitsPerComponent
+                <<87, 105, 100, 116, 104>>, <<72>>, <<72, 101, 105, 103, 104, 116>>, <<66, 80, 67>> }      \* Width H Height BPC (W is NameW)
+\* half of the time one of the structural names present, otherwise any name present
+PickName(names) == IF names \cap Structural # {} /\ RandomElement({TRUE, FALSE}) THEN RandomElement(names \cap Structural) ELSE RandomElement(names)
 
 MEntry(k, nm, idx, v, a) == [k |-> k, nm |-> nm, idx |-> idx, v |-> v, a |-> a]
 
@@ -240,7 +253,7 @@ Noop(kind) == /\ out' = out /\ sites' = sites /\ adict' = adict /\ Done1(MEntry(
 FlipByte ==
     /\ Applying("FlipByte")
     /\ IF out = <<>> THEN Noop("FlipByte")
-       ELSE \E p \in SomePositions(Len(out)) : \E b \in FlipChoices(out[p]) :
+       ELSE \E p \in SomePositions(Len(out)) : \E b \in {RandomElement(FlipChoices(out[p]))} :
               /\ out' = [out EXCEPT ![p] = b]
               /\ sites' = ShiftSites(sites, p, p, 1, 0)
               /\ adict' = adict
@@ -257,7 +270,7 @@ Truncate ==
 
 SpliceToken ==
     /\ Applying("SpliceToken")
-    /\ \E p \in SomePositions(Len(out) + 1) : \E t \in ToksOf(seed) : \E pad \in BOOLEAN :
+    /\ \E p \in SomePositions(Len(out) + 1) : \E t \in {RandomElement(ToksOf(seed))} : \E pad \in BOOLEAN :
           LET new == IF pad THEN <<32>> \o t \o <<32>> ELSE t IN
           /\ out' = Splice(out, p, p - 1, new)
           /\ sites' = ShiftSites(sites, p, p - 1, Len(new), 0)
@@ -272,13 +285,13 @@ SetNumber ==
        IN IF names = {} /\ paths = {} THEN Noop("SetNumber")
           ELSE \E inDict \in {paths # {} /\ (names = {} \/ RandomElement({TRUE, FALSE}))} :
                IF inDict THEN
-                  \E p \in paths : \E v \in Numbers :
+                  \E p \in {RandomElement(paths)} : \E v \in {RandomElement(Numbers), RandomElement(Numbers)} :
                       LET key == DictPathKey(adict, p) IN
                       /\ adict' = SetDict(adict, p, NumObj(v))
                       /\ out' = out /\ sites' = sites
                       /\ Done1(MEntry("SetNumber", key.name, key.idx, v, "dict"))
-               ELSE \E nm \in {RandomElement(names)} :          \* every kind of site is as likely as any other
-                  \E i \in {j \in SiteIdx("dec") : sites[j].name = nm} : \E v \in Numbers :
+               ELSE \E nm \in {PickName(names)} :
+                  \E i \in {RandomElement({j \in SiteIdx("dec") : sites[j].name = nm})} : \E v \in {RandomElement(Numbers), RandomElement(Numbers)} :
                       /\ out' = Splice(out, sites[i].s, sites[i].e, v)
                       /\ sites' = ShiftSites(sites, sites[i].s, sites[i].e, Len(v), i)
                       /\ adict' = adict
@@ -287,7 +300,7 @@ SetNumber ==
 SetHex ==
     /\ Applying("SetHex")
     /\ IF SiteIdx("hex") = {} THEN Noop("SetHex")
-       ELSE \E i \in SiteIdx("hex") : \E v \in HexValues :
+       ELSE \E i \in {RandomElement(SiteIdx("hex"))} : \E v \in {RandomElement(HexValues), RandomElement(HexValues)} :
               /\ out' = Splice(out, sites[i].s, sites[i].e, v)
               /\ sites' = ShiftSites(sites, sites[i].s, sites[i].e, Len(v), i)
               /\ adict' = adict
@@ -302,7 +315,7 @@ NestUnits(kind) ==
 NestDeep ==
     /\ Applying("NestDeep")
     /\ IF ~seed.txt \/ out = <<>> THEN Noop("NestDeep")
-       ELSE \E kind \in {"str", "arr", "dict"} : \E d \in DeepSet : \E bal \in BOOLEAN : \E atSite \in BOOLEAN :
+       ELSE \E kind \in {RandomElement({"str", "arr", "dict"})} : \E d \in {RandomElement(DeepSet)} : \E bal \in BOOLEAN : \E atSite \in BOOLEAN :
             \E i \in {IF atSite /\ SiteIdx("dec") # {} THEN RandomElement(SiteIdx("dec")) ELSE 0} :
             \E s \in {IF i # 0 THEN sites[i].s ELSE RandomElement(1..(Len(out) + 1))} :
               LET u == NestUnits(kind)
@@ -322,42 +335,48 @@ DigitsAt(bytes, q) ==
 NextDigit(bytes, from) ==
     LET S == {i \in from..(IF from + 40 < Len(bytes) THEN from + 40 ELSE Len(bytes)) : IsDigit(bytes[i])} IN IF S = {} THEN 0 ELSE MinOf(S)
 Pad10(ds) == [i \in 1..(10 - Len(ds)) |-> 48] \o ds
-\* the object number of the "n g obj" header that precedes position p (digits), <<>> if none
+\* the object number of the "n g obj" header that precedes position p (digits), <<>> if none: the bytes before the
+\* keyword are read backwards by a small automaton (white-space, generation, white-space, number)
 ObjNumBefore(bytes, p) ==
-    LET occ == {i \in AllOcc(bytes, KwObj) : i < p /\ i > 4 /\ ~IsRegular(bytes[i - 1])}
-    IN IF occ = {} THEN <<>>
-       ELSE LET k == MaxOf(occ)
-                \* backwards: white-space, generation digits, white-space, number digits
-                back(q, pred(_)) == LET S == {j \in (IF q > 12 THEN q - 12 ELSE 0)..q : \A i \in (j + 1)..q : pred(bytes[i])} IN MinOf(S)
-                g2 == back(k - 1, IsWS)
-                g1 == back(g2, IsDigit)
-                n2 == back(g1, IsWS)
-                n1 == back(n2, IsDigit)
-            IN IF n1 < n2 /\ g1 < g2 THEN SubSeq(bytes, n1 + 1, n2) ELSE <<>>
+    LET occ == {i \in AllOcc(bytes, KwObj) : i < p /\ i > 4 /\ ~IsRegular(bytes[i - 1])} IN
+    IF occ = {} THEN <<>>
+    ELSE LET k == MaxOf(occ)
+             win == Reverse(SubSeq(bytes, IF k > 30 THEN k - 30 ELSE 1, k - 1))
+             r == FoldLeft(LAMBDA acc, b :
+                      IF acc.ph = 0 THEN (IF IsWS(b) THEN acc ELSE IF IsDigit(b) THEN [acc EXCEPT !.ph = 1] ELSE [acc EXCEPT !.ph = 9])
+                      ELSE IF acc.ph = 1 THEN (IF IsDigit(b) THEN acc ELSE IF IsWS(b) THEN [acc EXCEPT !.ph = 2] ELSE [acc EXCEPT !.ph = 9])
+                      ELSE IF acc.ph = 2 THEN (IF IsWS(b) THEN acc ELSE IF IsDigit(b) THEN [acc EXCEPT !.ph = 3, !.n = <<b>>] ELSE [acc EXCEPT !.ph = 9])
+                      ELSE IF acc.ph = 3 THEN (IF IsDigit(b) THEN [acc EXCEPT !.n = <<b>> \o @] ELSE [acc EXCEPT !.ph = 4])
+                      ELSE acc,
+                    [ph |-> 0, n |-> <<>>], win)
+         IN IF r.ph \in {3, 4} THEN r.n ELSE <<>>
 
 CycleKinds == {"prev.self", "prev.two", "length.self", "length.mutual"}
 
 \* cross-reference sections: V = offset written after the last startxref; the dictionary of the section at offset v
-\* opens at the first "<<" at or after it (a table has none before its trailer)
+\* opens at the first "<<" at or after it (a table has none before its trailer).  Every intermediate value is bound by
+\* a singleton quantifier so that it is computed once.
+DictAt(hdr, v) == IF hdr + v > Len(out) THEN 0 ELSE FindFrom(out, <<60, 60>>, hdr + v)
+DigVal(ds) == DigitsVal([i \in 1..Len(ds) |-> ds[i] - 48])
+
 MakeCycle ==
     /\ Applying("MakeCycle")
-    /\ LET hdr == FindFrom(out, PctPDF, 1)
-           sxs == AllOcc(out, KwStartxref)
-           sxd == IF sxs = {} THEN 0 ELSE NextDigit(out, MaxOf(sxs) + 9)
-           vds == IF sxd = 0 THEN <<>> ELSE DigitsAt(out, sxd)
-           usable == ep = "file" /\ hdr # 0 /\ vds # <<>> /\ Len(vds) <= 8
-           v2 == IF usable THEN DigitsVal([i \in 1..Len(vds) |-> vds[i] - 48]) ELSE 0
-           dictAt(v) == IF hdr + v > Len(out) THEN 0 ELSE FindFrom(out, <<60, 60>>, hdr + v)
-           d2 == IF usable THEN dictAt(v2) ELSE 0
-           prevs == {i \in SiteIdx("dec") : sites[i].name = NamePrev /\ sites[i].idx = 1}
-           newestPrev == {i \in prevs : sites[i].s > d2}
-           lens == {i \in SiteIdx("dec") : sites[i].name = NameLength /\ sites[i].idx = 1}
-           indirect(i) == \E j \in SiteIdx("dec") : sites[j].name = NameLength /\ sites[j].idx = 2 /\ sites[j].s > sites[i].e /\ sites[j].s <= sites[i].e + 4
-       IN \E kind \in CycleKinds :
+    /\ \E kind \in {RandomElement(CycleKinds)} :
+       \E hdr \in {FindFrom(out, PctPDF, 1)} :
+       \E sxs \in {AllOcc(out, KwStartxref)} :
+       \E sxd \in {IF sxs = {} THEN 0 ELSE NextDigit(out, MaxOf(sxs) + 9)} :
+       \E vds \in {IF sxd = 0 THEN <<>> ELSE DigitsAt(out, sxd)} :
+       \E usable \in {ep = "file" /\ hdr # 0 /\ vds # <<>> /\ Len(vds) <= 8} :
+       \E v2 \in {IF usable THEN DigVal(vds) ELSE 0} :
+       \E d2 \in {IF usable THEN DictAt(hdr, v2) ELSE 0} :
+       \E newestPrev \in {{i \in SiteIdx("dec") : sites[i].name = NamePrev /\ sites[i].idx = 1 /\ sites[i].s > d2}} :
+       \E lens \in {{i \in SiteIdx("dec") : sites[i].name = NameLength /\ sites[i].idx = 1}} :
+       \E len2 \in {{sites[j].s : j \in {q \in SiteIdx("dec") : sites[q].name = NameLength /\ sites[q].idx = 2}}} :
+       LET indirect(i) == \E q \in len2 : q > sites[i].e /\ q <= sites[i].e + 4 IN
           IF kind = "prev.self" /\ usable /\ d2 # 0 THEN
               \* the newest section names itself as its predecessor
               IF newestPrev # {} THEN
-                  LET i == MinOf(newestPrev) IN
+                  \E i \in {MinOf(newestPrev)} :
                   /\ out' = Splice(out, sites[i].s, sites[i].e, vds)
                   /\ sites' = ShiftSites(sites, sites[i].s, sites[i].e, Len(vds), i)
                   /\ adict' = adict /\ Done1(MEntry("MakeCycle", NamePrev, 1, vds, kind))
@@ -367,38 +386,36 @@ MakeCycle ==
                   /\ adict' = adict /\ Done1(MEntry("MakeCycle", NamePrev, 1, vds, kind))
           ELSE IF kind = "prev.two" /\ usable /\ d2 # 0 /\ newestPrev # {} THEN
               \* newest -> older (as written) and older -> newest (inserted; everything behind moves by 17 bytes)
-              LET i == MinOf(newestPrev)
-                  pds == SubSeq(out, sites[i].s, sites[i].e)
-                  v1 == IF Len(pds) <= 8 THEN DigitsVal([q \in 1..Len(pds) |-> pds[q] - 48]) ELSE 0
-                  d1 == dictAt(v1)
-                  nv2 == D(NatDigits(v2 + 17))
+              \E i \in {MinOf(newestPrev)} :
+              \E pds \in {SubSeq(out, sites[i].s, sites[i].e)} :
+              \E d1 \in {IF Len(pds) <= 8 /\ \A q \in 1..Len(pds) : IsDigit(pds[q]) THEN DictAt(hdr, DigVal(pds)) ELSE 0} :
+              LET nv2 == D(NatDigits(v2 + 17))
                   new == <<47>> \o NamePrev \o <<32>> \o Pad10(nv2) \o <<32>>
                   o1 == Splice(out, sxd, sxd + Len(vds) - 1, nv2)                  \* startxref follows the move
-              IN IF d1 = 0 \/ d1 >= d2 \/ Len(pds) > 8 THEN Noop("MakeCycle")
+              IN IF d1 = 0 \/ d1 >= d2 THEN Noop("MakeCycle")
                  ELSE /\ out' = Splice(o1, d1 + 2, d1 + 1, new)
                       /\ sites' = ShiftSites(ShiftSites(sites, sxd, sxd + Len(vds) - 1, Len(nv2), 0), d1 + 2, d1 + 1, Len(new), 0)
                       /\ adict' = adict /\ Done1(MEntry("MakeCycle", NamePrev, 1, nv2, kind))
           ELSE IF kind = "length.self" /\ ep = "file" /\ lens # {} THEN
               \* a stream whose Length is a reference to the stream itself
               \E i \in {RandomElement(lens)} :
-              LET n == ObjNumBefore(out, sites[i].s)
-                  new == IF indirect(i) THEN n ELSE n \o <<32, 48, 32>> \o KwR
+              \E n \in {ObjNumBefore(out, sites[i].s)} :
+              LET new == IF indirect(i) THEN n ELSE n \o <<32, 48, 32>> \o KwR
               IN IF n = <<>> THEN Noop("MakeCycle")
                  ELSE /\ out' = Splice(out, sites[i].s, sites[i].e, new)
                       /\ sites' = ShiftSites(sites, sites[i].s, sites[i].e, Len(new), 0)
                       /\ adict' = adict /\ Done1(MEntry("MakeCycle", NameLength, 1, n, kind))
           ELSE IF kind = "length.mutual" /\ ep = "file" /\ Cardinality(lens) >= 2 THEN
               \* two streams, each with the other as its Length (a stream whose own Length is indirect)
-              LET i == MinOf(lens)
-                  j == MaxOf(lens)
-                  ni == ObjNumBefore(out, sites[i].s)
-                  nj == ObjNumBefore(out, sites[j].s)
-                  ref(n, k) == IF indirect(k) THEN n ELSE n \o <<32, 48, 32>> \o KwR
-                  o1 == Splice(out, sites[j].s, sites[j].e, ref(ni, j))           \* the later one first: positions before it stay
-              IN IF ni = <<>> \/ nj = <<>> \/ ni = nj THEN Noop("MakeCycle")
-                 ELSE /\ out' = Splice(o1, sites[i].s, sites[i].e, ref(nj, i))
-                      /\ sites' = ShiftSites(ShiftSites(sites, sites[j].s, sites[j].e, Len(ref(ni, j)), 0), sites[i].s, sites[i].e, Len(ref(nj, i)), 0)
-                      /\ adict' = adict /\ Done1(MEntry("MakeCycle", NameLength, 1, ni \o <<32>> \o nj, kind))
+              \E i \in {RandomElement(lens)} : \E j0 \in {RandomElement(lens \ {i})} :
+              \E a \in {IF i < j0 THEN i ELSE j0} : \E b \in {IF i < j0 THEN j0 ELSE i} :
+              \E na \in {ObjNumBefore(out, sites[a].s)} : \E nb \in {ObjNumBefore(out, sites[b].s)} :
+              LET ref(n, k) == IF indirect(k) THEN n ELSE n \o <<32, 48, 32>> \o KwR
+                  o1 == Splice(out, sites[b].s, sites[b].e, ref(na, b))           \* the later one first: positions before it stay
+              IN IF na = <<>> \/ nb = <<>> \/ na = nb THEN Noop("MakeCycle")
+                 ELSE /\ out' = Splice(o1, sites[a].s, sites[a].e, ref(nb, a))
+                      /\ sites' = ShiftSites(ShiftSites(sites, sites[b].s, sites[b].e, Len(ref(na, b)), 0), sites[a].s, sites[a].e, Len(ref(nb, a)), 0)
+                      /\ adict' = adict /\ Done1(MEntry("MakeCycle", NameLength, 1, na \o <<32>> \o nb, kind))
           ELSE Noop("MakeCycle")
 
 DropKeyword ==
@@ -406,7 +423,7 @@ DropKeyword ==
     /\ LET cands == {t \in ToksOf(seed) : Len(t) >= 2 /\ AllOcc(out, t) # {}}
        IN IF cands = {} THEN Noop("DropKeyword")
           ELSE \E t \in {RandomElement(cands)} :
-               \E p \in AllOcc(out, t) :
+               \E p \in {RandomElement(AllOcc(out, t))} :
                   /\ out' = Splice(out, p, p + Len(t) - 1, <<>>)
                   /\ sites' = ShiftSites(sites, p, p + Len(t) - 1, 0, 0)
                   /\ adict' = adict
@@ -419,7 +436,7 @@ SwapEntry ==
            paths == DictPaths(adict)
            of(nm) == {i \in SiteIdx("dec") : sites[i].name = nm}
        IN IF names # {} THEN
-              \E nm \in {RandomElement(names)} : \E i \in {RandomElement(of(nm))} : \E j \in {RandomElement(of(nm) \ {i})} :
+              \E nm \in {PickName(names)} : \E i \in {RandomElement(of(nm))} : \E j \in {RandomElement(of(nm) \ {i})} :
                    LET a == IF sites[i].s < sites[j].s THEN i ELSE j
                        b == IF a = i THEN j ELSE i
                        ba == SubSeq(out, sites[a].s, sites[a].e)
@@ -430,7 +447,7 @@ SwapEntry ==
                       /\ adict' = adict
                       /\ Done1(MEntry("SwapEntry", nm, 0, <<>>, "sites"))
           ELSE IF Cardinality(paths) >= 2 THEN
-              \E p \in paths : \E q \in {RandomElement(paths \ {p})} :
+              \E p \in {RandomElement(paths)} : \E q \in {RandomElement(paths \ {p})} :
                    /\ adict' = SetDict(SetDict(adict, p, GetDict(adict, q)), q, GetDict(adict, p))
                    /\ out' = out /\ sites' = sites
                    /\ Done1(MEntry("SwapEntry", DictPathKey(adict, p).name, 0, <<>>, "dict"))
@@ -534,11 +551,26 @@ AFinish ==
     /\ ph' = "emit"                                      \* round 0: the legal input itself
     /\ UNCHANGED <<ep, seed, lex, adict, mk, nmut, round, mlog, judge>>
 
+\* a kind is offered only where it can do something (the actions keep a no-op branch for the remaining corner cases)
+Applicable(k) ==
+    IF k \in {"FlipByte", "Truncate"} THEN out # <<>>
+    ELSE IF k = "SetNumber" THEN SiteIdx("dec") # {} \/ DictPaths(adict) # {}
+    ELSE IF k = "SetHex" THEN SiteIdx("hex") # {}
+    ELSE IF k = "NestDeep" THEN seed.txt /\ out # <<>>
+    ELSE IF k = "MakeCycle" THEN ep = "file"
+    ELSE IF k = "DropKeyword" THEN \E t \in ToksOf(seed) : Len(t) >= 2 /\ AllOcc(out, t) # {}
+    ELSE IF k = "SwapEntry" THEN Len(out) >= 8 \/ Cardinality(DictPaths(adict)) >= 2
+    ELSE TRUE
+
+\* structure-aware kinds are drawn more often than the byte-level ones (those also come in bulk from the harness)
+Weight(k) == IF k = "SetNumber" THEN 4 ELSE IF k \in {"NestDeep", "MakeCycle", "SetHex", "stop"} THEN 2 ELSE 1
+Lottery(S) == UNION {{<<k, i>> : i \in 1..Weight(k)} : k \in S}
+
 Pick ==
     /\ ph = "pick"
-    /\ \E k \in Kinds \cup (IF nmut >= 1 THEN {"stop"} ELSE {}) :
-          /\ mk' = k
-          /\ ph' = IF k = "stop" THEN "emit" ELSE "apply"
+    /\ \E t \in {RandomElement(Lottery({x \in Kinds : Applicable(x)} \cup (IF nmut >= 1 THEN {"stop"} ELSE {})))} :
+          /\ mk' = t[1]
+          /\ ph' = IF t[1] = "stop" THEN "emit" ELSE "apply"
     /\ UNCHANGED <<pvars, di, fin, ep, seed, sites, lex, adict, base, nmut, round, mlog, judge>>
 
 EmitCase ==
